@@ -182,6 +182,21 @@ pub struct Entry {
     pub filetype: EntryType,
 }
 
+/*
+ * Format a single "KEY (filename) = value" line.  The filename is written as
+ * raw bytes as it may not be valid UTF-8.
+ */
+fn line_bytes(key: &str, filename: &Path, value: &str) -> Vec<u8> {
+    let mut bytes = Vec::new();
+    bytes.extend_from_slice(key.as_bytes());
+    bytes.extend_from_slice(b" (");
+    bytes.extend_from_slice(filename.as_os_str().as_bytes());
+    bytes.extend_from_slice(b") = ");
+    bytes.extend_from_slice(value.as_bytes());
+    bytes.push(b'\n');
+    bytes
+}
+
 impl Entry {
     /**
      * Create a new [`Entry`].
@@ -308,25 +323,18 @@ impl Entry {
     pub fn as_bytes(&self) -> Vec<u8> {
         let mut bytes = Vec::new();
         for c in &self.checksums {
-            bytes.extend_from_slice(
-                format!(
-                    "{} ({}) = {}\n",
-                    c.digest,
-                    self.filename.display(),
-                    c.hash
-                )
-                .as_bytes(),
-            );
+            bytes.extend_from_slice(&line_bytes(
+                &c.digest.to_string(),
+                &self.filename,
+                &c.hash,
+            ));
         }
         if let Some(size) = self.size {
-            bytes.extend_from_slice(
-                format!(
-                    "Size ({}) = {} bytes\n",
-                    self.filename.display(),
-                    size
-                )
-                .as_bytes(),
-            );
+            bytes.extend_from_slice(&line_bytes(
+                "Size",
+                &self.filename,
+                &format!("{} bytes", size),
+            ));
         }
         bytes
     }
@@ -683,39 +691,28 @@ impl Distinfo {
 
         for q in self.distfiles.values() {
             for c in &q.checksums {
-                bytes.extend_from_slice(
-                    format!(
-                        "{} ({}) = {}\n",
-                        c.digest,
-                        q.filename.display(),
-                        c.hash
-                    )
-                    .as_bytes(),
-                );
+                bytes.extend_from_slice(&line_bytes(
+                    &c.digest.to_string(),
+                    &q.filename,
+                    &c.hash,
+                ));
             }
             if let Some(size) = q.size {
-                bytes.extend_from_slice(
-                    format!(
-                        "Size ({}) = {} bytes\n",
-                        q.filename.display(),
-                        size
-                    )
-                    .as_bytes(),
-                );
+                bytes.extend_from_slice(&line_bytes(
+                    "Size",
+                    &q.filename,
+                    &format!("{} bytes", size),
+                ));
             }
         }
 
         for q in self.patchfiles.values() {
             for c in &q.checksums {
-                bytes.extend_from_slice(
-                    format!(
-                        "{} ({}) = {}\n",
-                        c.digest,
-                        q.filename.display(),
-                        c.hash
-                    )
-                    .as_bytes(),
-                );
+                bytes.extend_from_slice(&line_bytes(
+                    &c.digest.to_string(),
+                    &q.filename,
+                    &c.hash,
+                ));
             }
         }
 
